@@ -40,6 +40,25 @@ def max_id(o):
     return m
 
 
+_REUSED = None
+
+
+def compile_reused(doc, uri='u'):
+    """Compile with ONE long-lived Compiler per process (its id counter is set to where a fresh one would start):
+    ('ok', pickles) or ('exc', text).  Documents reach it with ids restarting at 0, as they do when every file is
+    parsed by its own Parser."""
+    global _REUSED
+    if _REUSED is None:
+        _REUSED = Compiler(IdGenerator())
+    d_in = copy.deepcopy(doc)
+    d_in['uri'] = uri
+    _REUSED.id_generator._id_counter = max_id(doc) + 1
+    try:
+        return ('ok', _REUSED.compile(d_in))
+    except Exception as e:  # noqa: BLE001
+        return ('exc', '%s: %s' % (type(e).__name__, e))
+
+
 def compile_both(doc, uri='u'):
     """doc: AST dict (without uri).  Returns (impl result, reference pickles, input copy, input after compile).
     impl result is ('ok', pickles) or ('exc', text)."""
